@@ -109,7 +109,11 @@ def evaluate(
 
   stdout = io.StringIO()
   with contextlib.redirect_stdout(stdout):
-    if hasattr(code_block.body[-1], 'value'):   # pytype: disable=attribute-error
+    # NOTE: only an expression statement or a plain assignment can be split
+    # into "statements to execute" and "a value to evaluate"; other statements
+    # that carry a `value` attribute (e.g. `x += 1`, `x: int = 1`) must be
+    # executed as they are.
+    if isinstance(code_block.body[-1], (ast.Expr, ast.Assign)):   # pytype: disable=attribute-error
       last_expr = code_block.body.pop()  # pytype: disable=attribute-error
       result_vars = [RESULT_KEY]
 
